@@ -18,6 +18,8 @@ import OFV.Proofs.C10Lookup
 import OFV.Proofs.C10Entries
 import OFV.Proofs.C10Filter
 import OFV.Proofs.C10Sum
+import OFV.Proofs.C10Expect
+import OFV.Proofs.C10Su2
 
 namespace OFV.C10
 open OFV.Model OFV.Model.C10 OFV.Spec OFV.Spec.C10
@@ -188,6 +190,37 @@ theorem expectation_terms_sound (i j s : Nat) (hij : i < j) :
     actFTerm [(j, 1), (i, 1), (j, 0), (i, 0)] s
       = (if s.testBit i && s.testBit j then some (1, s) else none) :=
   ⟨rfl, actFTerm_number i s, actFTerm_two_body i j s hij⟩
+
+/-- **expectation_computational_basis_state, list input, summed over the dictionary**: for an operator whose terms
+are among the constant, `i^ i` and `j^ i^ j i` (`i < j`) on the orbitals of the occupation list (`ExpectOp`: what a
+normal-ordered operator with at most two-body number-conserving diagonal terms contains and all the function reads),
+the double loop over occupied orbitals returns the Spec diagonal element `⟨s| op |s⟩`. -/
+theorem expectation_cbs_sound (op : Op) (occ : List Bool) (s : Nat) (hag : Agree occ s)
+    (hop : ExpectOp occ.length op) : expectCBS op occ = melF op s s :=
+  expectCBS_sound op occ s hag hop
+
+/-! ## the spin operators (tolerance-free Model, every number of sites) -/
+
+/-- `sx_operator = (s_plus + s_minus) / 2` and `sy_operator = (s_plus - s_minus) / (2i)` as operators: Spec matrix
+elements between all basis states, for every number of sites. -/
+theorem sx_sy_ladder (sites t s : Nat) :
+    melF (Model.C10.sx 0 sites) t s =
+      Model.C10.half * melF (sPlus 0 sites) t s + Model.C10.half * melF (sMinus 0 sites) t s ∧
+    melF (Model.C10.sy 0 sites) t s =
+      (-(Model.C10.half * GQ.I)) * melF (sPlus 0 sites) t s + (Model.C10.half * GQ.I) * melF (sMinus 0 sites) t s := by
+  simp only [melF_den]
+  exact ⟨den_sx sites s t, den_sy sites s t⟩
+
+/-- `s_squared_operator = S^- S^+ + S^z (S^z + 1)` as an operator, for every number of sites: its matrix element is
+the composition (right factor first; `Sem.sumF b s W` applies the terms of `b` to `|s⟩` with the Spec action and
+weights the images by `W`) of the Model's `s_plus`, `s_minus`, `sz` operators. -/
+theorem s_squared_composition (sites t s : Nat) :
+    melF (sSquared 0 sites) t s =
+      Sem.sumF (sPlus 0 sites) s (fun y => melF (sMinus 0 sites) t y) +
+      Sem.sumF (Model.iadd 0 (Model.C10.sz 0 sites) (Model.mk .fermion [] 1)) s
+        (fun y => melF (Model.C10.sz 0 sites) t y) := by
+  simp only [melF_den]
+  exact den_sSquared sites s t
 
 /-! ## get_number_preserving_sparse_operator -/
 
